@@ -108,6 +108,65 @@ def simplify_scheds(case, fails, budget):
     return case
 
 
+def _arms_used(case):
+    used = set()
+
+    def walk(x):
+        if isinstance(x, dict):
+            if x.get("op") in ("add_arm", "remove_arm") and "arm" in x:
+                used.add(repr(x["arm"]))
+            for k, v in x.items():
+                if k == "rows" and isinstance(v, list):
+                    for r in v:
+                        if isinstance(r, list) and r:
+                            used.add(repr(r[0]))
+                elif k == "features" and isinstance(v, list):
+                    continue
+                else:
+                    walk(v)
+        elif isinstance(x, list):
+            for v in x:
+                walk(v)
+    walk({k: v for k, v in case.items() if k not in ("cfg", "cfgs")})
+    return used
+
+
+def simplify_cfg(case, fails, budget):
+    """Configuration simplification: sequential execution, default backend, fewer arms (only arms no operation mentions)."""
+    cfg = case.get("cfg")
+    if not isinstance(cfg, dict) or "arms" not in cfg or "cfgs" in case:
+        return case
+    for key, val in (("n_jobs", 1), ("backend", None)):
+        if cfg.get(key, val) != val and budget.left > 0:
+            cand = copy.deepcopy(case)
+            cand["cfg"][key] = val
+            if budget.take() and fails(cand):
+                case = cand
+                cfg = case["cfg"]
+    par = case.get("par")
+    if isinstance(par, dict):
+        for key, val in (("n_jobs", 2), ("backend", "threading")):
+            if par.get(key) != val and budget.left > 0:
+                cand = copy.deepcopy(case)
+                cand["par"][key] = val
+                if budget.take() and fails(cand):
+                    case = cand
+    npol = cfg.get("np")
+    if npol and npol[1].get("no_nhood_prob_of_arm"):
+        return case         # the probability list has one entry per arm
+    used = _arms_used(case)
+    for arm in list(cfg["arms"]):
+        if len(case["cfg"]["arms"]) <= 2 or budget.left <= 0:
+            break
+        if repr(arm) in used:
+            continue
+        cand = copy.deepcopy(case)
+        cand["cfg"]["arms"] = [a for a in cand["cfg"]["arms"] if a != arm]
+        if budget.take() and fails(cand):
+            case = cand
+    return case
+
+
 def shrink(case, fails, mod=None, max_exec=400):
     budget = Budget(max_exec)
     paths_fn = getattr(mod, "shrink_paths", None)
@@ -127,6 +186,7 @@ def shrink(case, fails, mod=None, max_exec=400):
                 continue
             case = ddmin_list(case, p, fails, budget, keep_min=1)
         case = simplify_scheds(case, fails, budget)
+        case = simplify_cfg(case, fails, budget)
         extra = getattr(mod, "simplify", None)
         if extra:
             case = extra(case, fails, budget)
